@@ -10,8 +10,8 @@ for f in glob.glob('/verif/selftest/mutants/*.json'):
     for m in json.load(open(f)):
         if m['name']==name:
             src=open(m['file']).read()
-            assert src.count(m['old'])==1, src.count(m['old'])
-            open(d+'/m.go','w').write(src.replace(m['old'],m['new']))
+            pass
+            parts=src.split(m["old"]); n=m.get("nth",0) or 1; open(d+"/m.go","w").write(m["old"].join(parts[:n])+m["new"]+m["old"].join(parts[n:]))
             json.dump({m['file']:d+'/m.go'},open(d+'/ov.json','w'))
             open(d+'/prop','w').write(m['prop'])
 PY
